@@ -11,16 +11,16 @@ var ErrInjected = errors.New("fio: injected I/O failure")
 
 // Sink is an io.WriteCloser recording everything and failing on demand.
 type Sink struct {
-	Data       []byte
-	Writes     int // Write calls seen
-	Closes     int // Close calls seen
-	WriteSizes []int
-	FailWrite  map[int]bool // 1-based call indexes of Write that fail
-	FailClose  map[int]bool
-	Sticky     bool // once failed, every later call fails
-	Prefix     int  // bytes accepted by a failing write (0 = none)
-	failed     bool
-	Fired      int
+	Data          []byte
+	Writes        int // Write calls seen
+	Closes        int // Close calls seen
+	WriteSizes    []int
+	FailWrite     map[int]bool // 1-based call indexes of Write that fail
+	FailClose     map[int]bool
+	Sticky        bool // once failed, every later call fails
+	Prefix        int  // bytes accepted by a failing write (0 = none)
+	failed        bool
+	Fired         int
 	FaultAt       []int // len(Data) when each failing write arrived
 	FaultAccepted []int // bytes each failing write still accepted
 }
@@ -55,20 +55,20 @@ func (s *Sink) Close() error {
 
 // Source is an io.ReadCloser delivering data in drawn pieces and failing on demand.
 type Source struct {
-	Data     []byte
-	Pos      int
-	Sizes    []int // successive maximum piece sizes; the last one repeats; empty = fill the request
-	idx      int
-	Reads    int
-	FailRead map[int]bool // 1-based call indexes
-	Sticky   bool
-	WithData bool // a failing read also returns some bytes (n>0, err)
+	Data        []byte
+	Pos         int
+	Sizes       []int // successive maximum piece sizes; the last one repeats; empty = fill the request
+	idx         int
+	Reads       int
+	FailRead    map[int]bool // 1-based call indexes
+	Sticky      bool
+	WithData    bool // a failing read also returns some bytes (n>0, err)
 	EOFWithData bool // deliver the last bytes together with io.EOF
-	failed   bool
-	Fired    int
-	Closes   int
-	MinPiece int // smallest piece actually delivered (non-final)
-	Unaligned int // non-final deliveries whose size is not a multiple of 8
+	failed      bool
+	Fired       int
+	Closes      int
+	MinPiece    int // smallest piece actually delivered (non-final)
+	Unaligned   int // non-final deliveries whose size is not a multiple of 8
 }
 
 func (s *Source) Read(p []byte) (int, error) {
